@@ -286,6 +286,12 @@ class Interp:
             pres = self.map_present(m_, v.key)
             return z3.If(pres, bv(0), bv(1))   # Occupied = 0, Vacant = 1 (declaration order in std)
         m = re.match(r'^(.*) as (\w+) \((\w+)\)$', s)
+        if m and m.group(3) == 'IntToInt' and m.group(2) in ('u8', 'u16', 'u32', 'u64', 'usize'):
+            v = self.operand(fr, m.group(1))
+            tw = {'u8': 8, 'u16': 16, 'u32': 32, 'u64': 64, 'usize': 64}[m.group(2)]
+            if z3.is_bv(v):
+                if v.size() == tw: return v
+                return z3.ZeroExt(tw - v.size(), v) if v.size() < tw else z3.Extract(tw - 1, 0, v)
         if m:
             v = self.operand(fr, m.group(1)); ty, kind = m.group(2), m.group(3)
             if kind == 'IntToFloat': return z3.fpToFP(z3.RNE(), v, z3.Float64()) if False else z3.fpUnsignedToFP(z3.RNE(), v, z3.Float64())
@@ -386,7 +392,50 @@ class Interp:
         if fname == 'core::f64::<impl f64>::max': return z3.If(z3.fpIsNaN(a[0]), a[1], z3.If(z3.fpIsNaN(a[1]), a[0], z3.If(z3.fpGEQ(a[0], a[1]), a[0], a[1])))
         if ' as Iterator>::map::<' in fname or ' as Iterator>::cloned::<' in fname: return a[0]
         if fname.startswith('Arguments::') or fname.startswith('core::fmt::') or fname.startswith('std::fmt::'): return Opaque('fmt')
+        g = self.generic_int_call(fname, a)
+        if g is not None: return g
         raise Exception('no model for call ' + fname)
+
+    def generic_int_call(self, fname, a):
+        """std integer helpers that refactorings commonly introduce (so that a changed tree is decided, not inconclusive)"""
+        a = [self.read_ref(x) if isinstance(x, Ref) and not z3.is_expr(x) else x for x in a]
+        m = re.match(r'^(?:std|core)::cmp::(min|max)::<[ui](?:\d+|size)>$', fname)
+        if m and len(a) == 2 and z3.is_bv(a[0]):
+            lt = z3.ULT(a[0], a[1]) if not re.search(r'<i', fname) else (a[0] < a[1])
+            return z3.If(lt, a[0], a[1]) if m.group(1) == 'min' else z3.If(lt, a[1], a[0])
+        m = re.match(r'^core::num::<impl ([ui])(\d+|size)>::(\w+)$', fname)
+        if not m or not a or not z3.is_bv(a[0]):
+            return None
+        signed, op = m.group(1) == 'i', m.group(3)
+        x = a[0]; y = a[1] if len(a) > 1 else None
+        w = x.size()
+        if y is not None and z3.is_bv(y) and y.size() != w:
+            y = z3.ZeroExt(w - y.size(), y) if y.size() < w else z3.Extract(w - 1, 0, y)
+        if op == 'wrapping_add': return x + y
+        if op == 'wrapping_sub': return x - y
+        if op == 'wrapping_mul': return x * y
+        if op == 'saturating_sub' and not signed: return z3.If(z3.ULT(x, y), z3.BitVecVal(0, w), x - y)
+        if op == 'saturating_add' and not signed: return z3.If(z3.BVAddNoOverflow(x, y, False), x + y, z3.BitVecVal(2 ** w - 1, w))
+        if op in ('min', 'max') and not signed:
+            lt = z3.ULT(x, y)
+            return z3.If(lt, x, y) if op == 'min' else z3.If(lt, y, x)
+        if op == 'leading_zeros':
+            r = z3.BitVecVal(w, 32)
+            for i in range(w): r = z3.If(z3.Extract(i, i, x) == 1, z3.BitVecVal(w - 1 - i, 32), r)
+            return r
+        if op == 'trailing_zeros':
+            r = z3.BitVecVal(w, 32)
+            for i in range(w - 1, -1, -1): r = z3.If(z3.Extract(i, i, x) == 1, z3.BitVecVal(i, 32), r)
+            return r
+        if op == 'count_ones':
+            return z3.Sum([z3.ZeroExt(31, z3.Extract(i, i, x)) for i in range(w)])
+        if op == 'is_power_of_two': return z3.And(x != 0, (x & (x - 1)) == 0)
+        if op == 'abs_diff' and not signed: return z3.If(z3.ULT(x, y), y - x, x - y)
+        if op in ('checked_add', 'checked_sub', 'checked_mul') and not signed:
+            ok = {'checked_add': z3.BVAddNoOverflow(x, y, False), 'checked_sub': z3.UGE(x, y), 'checked_mul': z3.BVMulNoOverflow(x, y, False)}[op]
+            val = {'checked_add': x + y, 'checked_sub': x - y, 'checked_mul': x * y}[op]
+            return OptionVal(ok, val)
+        return None
 
     def run_closure(self, clo, env, item):
         sub = Interp(self.fns, self.K)
